@@ -18,7 +18,7 @@ import models
 SIZES = [1, 15, 16, 17, 48, 100, 112, 256]
 ALIGNS = [16, 32, 64, 128]
 MIN_IMPROVE = 500
-P8_SMALL = [(3, 3, 100, 128), (1, 2, 100, 16), (0, 1, 1, 32), (1, 1, 16, 32), (2, 3, 1, 64)]   # = Alloc p8_witness
+P8_SMALL = [(3, 3, 100, 128), (1, 2, 100, 16), (0, 1, 1, 32), (1, 1, 16, 32), (2, 3, 1, 64)]   # = AllocExamples.p8_witness
 P8_WITNESS = [(4, 4, 17, 128), (4, 5, 1, 16), (5, 5, 16, 32), (3, 3, 100, 16), (5, 5, 1, 64), (3, 3, 16, 64),
               (3, 4, 15, 128), (5, 6, 1, 64)]
 
@@ -435,7 +435,7 @@ def run(tier):
 
     phase["linear"] = round(time.time() - t_l, 1)
     # ---------------- HillClimb ----------------
-    hcases = [(P8_SMALL, 0, 1 << 32, False), (P8_WITNESS, None, 1 << 32, False)]   # replays of the known defect, real stream
+    hcases = [(P8_SMALL, 0, 1 << 32, False), (P8_WITNESS, None, 1 << 32, False)]   # witnesses of the repaired defect P8 (real stream): must pass
     for k, r in enumerate(cases["zero"][: (60 if tier == "quick" else 1500)] + cases["hill"]):
         pk = peak(r)
         mi = rng.choice([None, 0, 0, 1, 7, 100, 600, 1500])
@@ -530,9 +530,11 @@ def run(tier):
                         "total == highest end address is read in each allocator's end-of-buffer convention (DESIGN.md C05): Greedy "
                         "and Linear pad the last buffer to its alignment, HillClimb does not"]
 
+    # defect P8 (randint on an empty range) was repaired in /repo; any exception of the allocator is a violation again
     for key, detail in known_p8[:1]:
-        res.violation(key, detail, "HillClimbAllocator.attempt_bottleneck_fix: random.randint(0, len(turn_list) - 2) raised "
-                                   "ValueError (one-element turn_list); the search does not terminate normally (defect P8)")
+        res.violation(key, detail, "HillClimbAllocator raised %s (attempt_bottleneck_fix: random.randint on an empty range was "
+                                   "defect P8, repaired by max(len(turn_list) - 2, 0)); hillclimb_terminates says every run "
+                                   "ends with addresses" % ("ValueError from random.randint" if detail["error"] == 1 else detail["error"]))
 
     def search():
         return first_bad[0] if first_bad else None
